@@ -139,9 +139,7 @@ def _parse(r):
         r.depth = int(m.group(1))
     for line in out.splitlines():
         if line.startswith('<<"TR", "'):
-            mm = _TR.match(line)
-            if mm:
-                r.tr.append(json.loads(json.loads('"' + mm.group(1) + '"')))
+            r.tr.append(line)
             continue
         if line.startswith('<<"'):
             mm = _PR.match(line)
@@ -312,10 +310,11 @@ def parse_sim_file(path):
 
 
 def dump_cached(module, constants, view="view", action_constraint="DumpL",
-                constraints=(), timeout=1800, extra_modules=()):
+                constraints=(), timeout=1800):
     """Transition dump of spec/<module>.tla under *constants*; cached under
     .cache/dumps keyed by the spec sources and the configuration (the dump
-    depends on the specification only, never on /repo)."""
+    depends on the specification only, never on /repo).  r.tr holds the raw
+    TR lines (see graph.Graph)."""
     import gzip
     import hashlib
     h = hashlib.sha256()
@@ -326,12 +325,13 @@ def dump_cached(module, constants, view="view", action_constraint="DumpL",
                    tuple(constraints))).encode())
     key = h.hexdigest()[:20]
     cdir = os.path.join(VERIF, ".cache", "dumps")
-    path = os.path.join(cdir, "%s-%s.json.gz" % (module, key))
+    path = os.path.join(cdir, "%s-%s.txt.gz" % (module, key))
     if os.path.exists(path):
         with gzip.open(path, "rt") as f:
-            d = json.load(f)
+            hdr = json.loads(f.readline())
+            lines = f.read().splitlines()
         r = TLCResult()
-        r.tr, r.generated, r.distinct, r.depth, r.wall = d["tr"], d["generated"], d["distinct"], d["depth"], 0.0
+        r.tr, r.generated, r.distinct, r.depth, r.wall = lines, hdr["generated"], hdr["distinct"], hdr["depth"], 0.0
         r.cached = True
         return r
     sc = scratch()
@@ -344,8 +344,9 @@ def dump_cached(module, constants, view="view", action_constraint="DumpL",
     if r.error is None and not r.timed_out and r.tr:
         os.makedirs(cdir, exist_ok=True)
         tmp = path + ".tmp%d" % os.getpid()
-        with gzip.open(tmp, "wt") as f:
-            json.dump({"tr": r.tr, "generated": r.generated, "distinct": r.distinct,
-                       "depth": r.depth}, f)
+        with gzip.open(tmp, "wt", compresslevel=1) as f:
+            f.write(json.dumps({"generated": r.generated, "distinct": r.distinct,
+                                "depth": r.depth}) + "\n")
+            f.write("\n".join(r.tr))
         os.replace(tmp, path)
     return r
